@@ -25,6 +25,7 @@ type verifC07_iscc struct {
 	blobstore.BlobAccess
 	stored   map[string]int64
 	latest   *int64 // ghost: value of the latest dirty release of d1
+	latest2  *int64 // ... and of d2
 	puts     int
 	inFlight int
 	mayFail  bool
@@ -34,11 +35,9 @@ type verifC07_iscc struct {
 
 func (c *verifC07_iscc) Get(ctx context.Context, d digest.Digest) buffer.Buffer {
 	v, ok := c.stored[d.GetHashString()]
-	if d.GetHashString() == verifC07_h1 {
-		// the store only reads the cache when it holds no handle for the digest:
-		// everything recorded so far must have reached the cache by then
-		rt.Assert(v == *c.latest, "a fresh handle never starts from stale statistics (no earlier update was lost or left unwritten)")
-	}
+	// (what the cache returns may be stale if a handle for the digest is registered
+	// while this read is in progress; what matters is what a client is handed,
+	// which is asserted where Get returns)
 	if !ok {
 		return buffer.NewBufferFromError(status.Error(codes.NotFound, "no stats yet"))
 	}
@@ -75,7 +74,7 @@ func verifHarness_C07_MutableProtoStore() {
 	}
 	rt.Bound("requests_after_first_update", ops)
 	rt.Bound("overlapping_requests", ops)
-	rt.MustCover("store:release-during-write", "store:write-failed-requeued", "store:all-written")
+	rt.MustCover("store:release-during-write", "store:write-failed-requeued", "store:all-written", "store:second-action-updated")
 	ctx := context.Background()
 	iscc := &verifC07_iscc{stored: map[string]int64{}, mayFail: rt.NondetBool("writes may fail"), budget: ops}
 	ss := NewBlobAccessMutableProtoStore[remoteexecution.Digest](iscc, 1000).(*blobAccessMutableProtoStore[remoteexecution.Digest, *remoteexecution.Digest])
@@ -91,6 +90,7 @@ func verifHarness_C07_MutableProtoStore() {
 			failures++
 			return
 		}
+		rt.Assert(h.GetMutableProto().SizeBytes == counter, "the statistics a client is handed reflect every update recorded so far (none lost, none overwritten by an earlier one)")
 		if iscc.inFlight > 0 {
 			rt.Cover("store:release-during-write")
 		}
@@ -98,11 +98,22 @@ func verifHarness_C07_MutableProtoStore() {
 		h.GetMutableProto().SizeBytes = counter
 		h.Release(true)
 	}
+	var counter2 int64
+	iscc.latest2 = &counter2
 	read := func() {
-		if h, err := ss.Get(ctx, d2); err == nil {
-			h.Release(false)
-		} else {
+		h, err := ss.Get(ctx, d2)
+		if err != nil {
 			failures++
+			return
+		}
+		rt.Assert(h.GetMutableProto().SizeBytes == counter2, "the statistics a client is handed reflect every update recorded so far (second action)")
+		if rt.NondetBool("the request for the second action records an outcome too") {
+			rt.Cover("store:second-action-updated")
+			counter2++
+			h.GetMutableProto().SizeBytes = counter2
+			h.Release(true)
+		} else {
+			h.Release(false)
 		}
 	}
 	iscc.during = func() {
@@ -147,5 +158,18 @@ func verifHarness_C07_MutableProtoStore() {
 	for _, h := range ss.handlesToWrite {
 		_, ok := ss.handles[h.digest]
 		rt.Assert(ok, "no handle is both unregistered and queued for writing")
+	}
+	// nothing recorded is left behind unwritten and unqueued (for either action)
+	for dg, h := range ss.handles {
+		if h.useCount == 0 {
+			rt.Assert(h.handlesToWriteIndex >= 0, "a dirty handle nobody uses is queued for writing")
+			_ = dg
+		}
+	}
+	if h2, ok := ss.handles[d2]; !ok || h2.useCount > 0 {
+		_ = h2
+	}
+	if _, ok := ss.handles[d2]; !ok {
+		rt.Assert(iscc.stored[verifC07_h2] == counter2, "statistics recorded last for the second action are the ones in the cache")
 	}
 }
